@@ -62,15 +62,19 @@ func loopContaining(fn *ssa.Function, b *ssa.BasicBlock) (*ssa.BasicBlock, map[*
 }
 
 // cyclePairs: (function, action callee) pairs; the action must be repeatable inside its loop.
-var cyclePairs = []struct{ recv, fn, action, why string }{
-	{"EdgeQuery", "initCovering", "addInitialRange", "one top-level cell per spanned face / child"},
-	{"ShapeIndexRegion", "CellUnionBound", "coverRange", "same enumeration in the region's own bound"},
-	{"coverer", "coveringInternal", "addCandidate", "every popped candidate's children are offered"},
-	{"coverer", "expandChildren", "newCandidate", "all four children are examined"},
-	{"EdgeQuery", "processEdges", "maybeAddResult", "every edge of every clipped shape of the cell"},
-	{"EdgeQuery", "findEdgesBruteForce", "maybeAddResult", "every edge of every shape"},
-	{"EdgeQuery", "findEdgesOptimized", "processOrEnqueueCell", "every non-empty child of the popped cell"},
-	{"CrossingEdgeQuery", "getCellsForEdge", "computeCellsIntersected", "every face segment of the query edge"},
+var cyclePairs = []struct {
+	recv, fn, action, why string
+	exhaustive            bool // the enclosing loop is left only from its header (a plain walk over a slice: no break, no return)
+}{
+	{"EdgeQuery", "initCovering", "addInitialRange", "one top-level cell per spanned face / child", false},
+	{"ShapeIndexRegion", "CellUnionBound", "coverRange", "same enumeration in the region's own bound", false},
+	{"coverer", "coveringInternal", "addCandidate", "every popped candidate's children are offered", false},
+	{"coverer", "expandChildren", "newCandidate", "all four children are examined", false},
+	{"EdgeQuery", "processEdges", "maybeAddResult", "every edge of every clipped shape of the cell", false},
+	{"EdgeQuery", "findEdgesBruteForce", "maybeAddResult", "every edge of every shape", false},
+	{"EdgeQuery", "findEdgesOptimized", "processOrEnqueueCell", "every non-empty child of the popped cell", false},
+	{"CrossingEdgeQuery", "getCellsForEdge", "computeCellsIntersected", "every face segment of the query edge", false},
+	{"CrossingEdgeQuery", "candidates", "findByShapeID", "every visited cell is searched for the requested shape (a cell without it is skipped, not the end of the walk)", true},
 }
 
 func runCycle(c *core.Ctx) []core.Obligation {
@@ -114,6 +118,21 @@ func runCycle(c *core.Ctx) []core.Obligation {
 			}
 			if !back {
 				bad = fmt.Sprintf("after the call at %s control always leaves the loop (break/return): the action runs for the first item only", c.Pos(s.Pos()))
+			}
+			if p.exhaustive {
+				for b := range body {
+					if b == h {
+						continue
+					}
+					for _, succ := range b.Succs {
+						if !body[succ] {
+							bad = fmt.Sprintf("the loop around the call at %s is left from inside its body (block %d): the items after that point are never examined", c.Pos(s.Pos()), b.Index)
+						}
+					}
+					if _, isRet := b.Instrs[len(b.Instrs)-1].(*ssa.Return); isRet {
+						bad = fmt.Sprintf("the loop around the call at %s returns from inside its body: the remaining items are never examined", c.Pos(s.Pos()))
+					}
+				}
 			}
 		}
 		switch {
@@ -410,6 +429,7 @@ func runPolarity(c *core.Ctx) []core.Obligation {
 			}
 		}
 	}
+	obs = append(obs, rawChordCompare(c)...)
 	return obs
 }
 
